@@ -474,6 +474,7 @@ func runHarness(i *interpreter, fn *ssa.Function, name string, sol *solver, cfg 
 		work = work[:len(work)-1]
 		x := &executor{sol: sol, prefix: p, nameCount: map[string]int{}, res: res, cfg: cfg, ghost: map[string]value{}}
 		X = x
+		bunCalls, bunLastModel, bunLastRaw = nil, nil, nil
 		res.Paths++
 		runPath(i, fn, x)
 		if len(x.pc) > 0 {
